@@ -9,6 +9,7 @@ import CCVerif.Lemmas.CheckerEvaluatorRen
 import CCVerif.Lemmas.EvaluatorRenameTop
 import CCVerif.Lemmas.EvaluatorRenameCex
 import CCVerif.Lemmas.NormLocals
+import CCVerif.Lemmas.CheckerEvaluatorPlain
 /-!
 # C11 — a model never shows a calculated value that is stale w.r.t. current data
 -/
@@ -683,5 +684,87 @@ theorem cstShaped_history_counterexample :
   have := h [] 10 histKind ha hn ho 5 ⟨2, "D1", .term, some (un (glob "F1") (glob "F1"))⟩
   rw [List.take_of_length_le (by decide), hs] at this
   exact hc (this (by simp))
+
+end CCVerif.RSModelGen
+
+/-! # The plain rename `SetAliasFor(…, substitute = false)` on the carrier (prover-C11u)
+
+`Inv.run_on` excludes the plain rename: the store after it is not the old store renamed by a map (the dependants keep
+their definitions, the old name dangles in them), and the carrier hypothesis says nothing about the RENAMED
+definitions of the dependants, so the admissibility `RenCarrier.adm` cannot be applied to the whole store. The
+dependants lose their values (the repaired defect); the value of every other term is transferred through the
+SUB-STORE of the constituents not reachable from the renamed one (`Inv.setAliasFalse_on`,
+`Lemmas/CheckerEvaluatorPlain.lean`): frame into the sub-store, `RenCarrier.adm` + `TVal.ren` on the sub-store with
+the map `old ↦ new` (which leaves the definitions of the sub-store alone: `RenameIdOn`, the law `rename_id` on the
+carrier, `renameC_id_shaped`), then `TVal.rename_sub` into the new store. No new law of checker or evaluator. -/
+namespace CCVerif.RSModelGen
+open CCVerif.SchemaGen (checkerR CDef CInfo checkerR_lawful glob Cst)
+
+/-- **C11 for the type-checker model and the evaluator model, ALL operations of the machine on the carrier of
+grammar-shaped constituents** (`fresh_checker_evaluator_partial4` without `NoPlainRename`). For constant traits whose
+keys are not good names, every fuel, every admissible history (aliases stay pairwise distinct, no `load`) of
+insertions, erasures, definition edits, `UpdateState`, data edits, `Calculate`, `RecalculateAll`, `SetAliasFor` WITH
+and WITHOUT substitution and `SubstitueAliases` along which every stored constituent is grammar-shaped with a good
+alias: every term that reports a calculated value reports the value a full re-analysis and recalculation gives.
+Part of `fresh_checker_evaluator_statement`: the carrier hypothesis `hP` and `TraitsApart` remain. -/
+theorem fresh_checker_evaluator_partial5 (traits : Types.TraitEnv) (hT : TraitsApart traits) (fuel : Nat)
+    (ops : List (Op CDef Eval.Val))
+    (ha : AdmissibleAllFrom (checkerR fun _ => traits) (evaluatorE fuel) {} ops)
+    (hP : ∀ k, ∀ c ∈ (run (checkerR fun _ => traits) (evaluatorE fuel) (ops.take k)).sch.store, cstShaped c) :
+    (run (checkerR fun _ => traits) (evaluatorE fuel) ops).Fresh (checkerR fun _ => traits) (evaluatorE fuel) :=
+  (Inv.run_onAll (checkerR_lawful _) (evaluatorE_lawfulR traits fuel) (SchemaGen.checkerEquivariance fun _ => traits)
+    (evalEquivarianceG traits fuel) (checker_carrierG traits hT fuel) (checker_renameIdOn traits fuel) ha
+    (fun k c hc => (cstShapedN_iff fuel c).2 (hP k c hc))).fresh (checkerR_lawful _)
+    (evaluatorE_lawfulR traits fuel)
+
+/-- `X1` = {1,2}, `X2` = {3}; `D1 := X1∪X1`, `D2 := X2∪X2`, both calculated; `X1` renamed to `X7` WITHOUT
+substitution: `D1` still says `X1∪X1`, is incorrect and loses its value, `D2` keeps its value; then `X2` renamed to
+`X3` with substitution -/
+def histEvalPlain : List (Op CDef Eval.Val) :=
+  [.schema (.insert ⟨1, "X1", .base, none⟩), .setBase 1 (.s [.e 1, .e 2]),
+   .schema (.insert ⟨4, "X2", .base, none⟩), .setBase 4 (.s [.e 3]),
+   .schema (.insert ⟨2, "D1", .term, some (un (glob "X1") (glob "X1"))⟩),
+   .schema (.insert ⟨3, "D2", .term, some (un (glob "X2") (glob "X2"))⟩),
+   .recalculateAll, .schema (.setAlias 1 "X7" false), .schema (.setAlias 4 "X3" true)]
+
+/-! non-vacuity: the history has a plain rename, is admissible, every stored constituent is in the carrier at every
+step; the reports before and after the plain rename and at the end -/
+example : ¬ ∀ op ∈ histEvalPlain, NoPlainRename op := by decide
+example : AdmissibleAllFrom (checkerR fun _ => []) (evaluatorE 10) {} histEvalPlain := by decide +kernel
+
+theorem histEvalPlain_shaped :
+    ∀ k, ∀ c ∈ (run (checkerR fun _ => []) (evaluatorE 10) (histEvalPlain.take k)).sch.store, cstShaped c := by
+  intro k
+  by_cases hk : k < 10
+  · have h : ∀ k ∈ List.range 10, ∀ c ∈ (run (checkerR fun _ => []) (evaluatorE 10) (histEvalPlain.take k)).sch.store,
+        cstShaped c := by decide +kernel
+    exact h k (List.mem_range.2 hk)
+  · rw [List.take_of_length_le (by simp only [histEvalPlain, List.length_cons, List.length_nil]; omega)]
+    decide +kernel
+
+example : (run (checkerR fun _ => []) (evaluatorE 10) histEvalPlain).Fresh (checkerR fun _ => []) (evaluatorE 10) :=
+  fresh_checker_evaluator_partial5 [] (by decide) 10 histEvalPlain (by decide +kernel) histEvalPlain_shaped
+
+/-- the reports: before the plain rename `D1` and `D2` are calculated; after `SetAliasFor(X1 ↦ X7, false)` the
+dependant `D1` (still `X1∪X1`, `X1` dangling) is INCORRECT and WITHOUT VALUE, `D2` keeps its value; the final report
+agrees with a full recalculation -/
+theorem fresh_checker_evaluator_plain_example :
+    (run (checkerR fun _ => []) (evaluatorE 10) (histEvalPlain.take 7)).report =
+      [(1, false, some (.s [.e 1, .e 2])), (2, true, some (.s [.e 1, .e 2])), (3, true, some (.s [.e 3])),
+       (4, false, some (.s [.e 3]))] ∧
+    (run (checkerR fun _ => []) (evaluatorE 10) (histEvalPlain.take 8)).report =
+      [(1, false, some (.s [.e 1, .e 2])), (2, false, none), (3, true, some (.s [.e 3])),
+       (4, false, some (.s [.e 3]))] ∧
+    (checkerR fun _ => []).ok (SchemaGen.St.infoFor (checkerR fun _ => [])
+      (run (checkerR fun _ => []) (evaluatorE 10) (histEvalPlain.take 8)).sch 2) = false ∧
+    (checkerR fun _ => []).ok (SchemaGen.St.infoFor (checkerR fun _ => [])
+      (run (checkerR fun _ => []) (evaluatorE 10) (histEvalPlain.take 8)).sch 3) = true ∧
+    (run (checkerR fun _ => []) (evaluatorE 10) histEvalPlain).sch.store =
+      [⟨1, "X7", .base, none⟩, ⟨2, "D1", .term, some (un (glob "X1") (glob "X1"))⟩,
+       ⟨3, "D2", .term, some (un (glob "X3") (glob "X3"))⟩, ⟨4, "X3", .base, none⟩] ∧
+    (run (checkerR fun _ => []) (evaluatorE 10) histEvalPlain).report =
+      ((run (checkerR fun _ => []) (evaluatorE 10) histEvalPlain).recomputed (checkerR fun _ => [])
+        (evaluatorE 10)).report := by
+  decide +kernel
 
 end CCVerif.RSModelGen
